@@ -43,12 +43,18 @@ def _strategy(draw):
     assets = []
     for i in range(draw(st.integers(1, 3))):
         cls = draw(st.sampled_from(["simple", "storage", "storage", "contract", "transport", "transport", "multi",
-                                    "orderbook", "orderbook", "storage_mip"]))
+                                    "orderbook", "orderbook", "storage_mip", "scaled"]))
         if i == 0 and draw(st.integers(0, 3)) > 0:
             cls = "storage"      # something that couples present and future in most cases (else the stages decouple)
         if cls == "storage_mip" and (T > 5 or any(x["type"] == "storage" and (x.get("no_simult") or x.get("max_store_duration")) for x in assets)):
             cls = "storage"      # boolean variables only on short grids, one such storage (exact reference by enumeration)
-        a = gen.draw_asset(draw, cx, cls, "a%d" % i)
+        if cls == "scaled":
+            a = gen.a_scaled(draw, cx, "a%d" % i, base_cls=draw(st.sampled_from(["simple", "storage", "transport"])))
+            a["base"]["wacc"] = 0.0
+            if a["base"]["type"] == "storage":
+                a["base"]["price"] = None
+        else:
+            a = gen.draw_asset(draw, cx, cls, "a%d" % i)
         if cls == "orderbook":
             a["wacc"] = 0.0
             if draw(st.booleans()):
